@@ -27,6 +27,17 @@ pub fn cose_key_of(key: &SigningKey) -> CoseKey {
     CoseKey::EC2 { crv: EC2Curve::P256, x: ep.x().unwrap().to_vec(), y: EC2Y::Value(ep.y().unwrap().to_vec()) }
 }
 
+/// a P-256 key whose public point has a coordinate of a chosen shape (found by drawing keys):
+/// 0: x = 00 [80..ff] …, 1: y = 00 [80..ff] …, 2: x = 00 [00..7f] …, 3: y = 00 [00..7f] …
+pub fn ground_key(rng: &mut StdRng, shape: u8) -> SigningKey {
+    loop {
+        let k = SigningKey::random(&mut *rng);
+        let ep = k.verifying_key().to_encoded_point(false);
+        let c = if shape % 2 == 0 { ep.x().unwrap().to_vec() } else { ep.y().unwrap().to_vec() };
+        if c[0] == 0 && ((c[1] >= 0x80) == (shape % 4 < 2)) { return k; }
+    }
+}
+
 pub fn issue(
     rng: &mut StdRng,
     pki: &Pki,
